@@ -558,19 +558,20 @@ def r6_total_operations(chk: Check) -> None:
                 tainted = isinstance(arg, ast.Name) and any(isinstance(v, ast.Call) and last_attr(v) == "sanitize_url" for v in local_value(fn, arg.id))
                 chk.decide(not tainted, "C16.R6", fn, f"{unparse(c, 60)}", "the sanitized URL (`[Filtered]@host`) is not a parseable URL: urlparse raises ValueError and the writer thread dies", fn.loc(c))
     # the failure formatter runs inside the JUnit handler (and the CLI summary): decoding the response there must be total too
-    ff = P.func("core/failures.py:format_failures")
-    for a in walk_body(ff.node):
+    text_users = [P.func("core/failures.py:format_failures")] + [f_ for f_ in P.module("cli/commands/run/handlers/output.py").functions.values() if not isinstance(f_.node, ast.Lambda)]
+    for ff in text_users:
+      for a in walk_body(ff.node):
         if isinstance(a, ast.Attribute) and a.attr == "text" and isinstance(a.ctx, ast.Load) and "response" in unparse(a.value):
-            n += 1
-            tries = [t for t in ancestors(a) if isinstance(t, ast.Try) and any(is_within(a, s_) for s_ in t.body)]
-            caught = {cl.rsplit(".", 1)[-1] for t in tries for h in t.handlers for cl in handler_classes(h)}
-            lookup = bool(caught & {"LookupError", "Exception", "BaseException"})
-            unicode_ = bool(caught & {"UnicodeError", "ValueError", "Exception", "BaseException"})
-            construct = f"{unparse(a)} while formatting a failure"
-            if lookup and unicode_:
-                chk.ok("C16.R6", ff, construct, f"guarded against {sorted(caught)}", ff.loc(a))
-            else:
-                chk.violation("C16.R6", ff, construct, f"Response.text decodes with the charset the server declared; only {sorted(caught) or 'nothing'} is handled: `charset=foobar` raises LookupError and `charset=undefined` UnicodeError (not a UnicodeDecodeError) out of the JUnit handler - the run is aborted with an internal error and junit.xml stays empty", ff.loc(a))
+              n += 1
+              tries = [t for t in ancestors(a) if isinstance(t, ast.Try) and any(is_within(a, s_) for s_ in t.body)]
+              caught = {cl.rsplit(".", 1)[-1] for t in tries for h in t.handlers for cl in handler_classes(h)}
+              lookup = bool(caught & {"LookupError", "Exception", "BaseException"})
+              unicode_ = bool(caught & {"UnicodeError", "ValueError", "Exception", "BaseException"})
+              construct = f"{unparse(a)} while formatting a failure"
+              if lookup and unicode_:
+                  chk.ok("C16.R6", ff, construct, f"guarded against {sorted(caught)}", ff.loc(a))
+              else:
+                  chk.violation("C16.R6", ff, construct, f"Response.text decodes with the charset the server declared; only {sorted(caught) or 'nothing'} is handled: `charset=foobar` raises LookupError and `charset=undefined` UnicodeError (not a UnicodeDecodeError) out of the JUnit handler - the run is aborted with an internal error and junit.xml stays empty", ff.loc(a))
     if n < 5:
         chk.undecided("C16.R6", "<discovery>", f"sites={n}", "fewer decode/parse sites than confirmed by hand")
 
